@@ -6,14 +6,14 @@ classification, and the `atlas:sum ignore` directive (regexp `reDirective`).
 Everything is over byte lists. The hash function is a parameter `H : Bytes → Bytes`
 (`base64(sha256(·))` in the driver).
 -/
+import Atlas.Base.Bytes
+
 namespace Atlas.Hash
+open Atlas
 
-abbrev Bytes := List UInt8
+def str (s : String) : Bytes := Bytes.ofString s
 
-def str (s : String) : Bytes := s.toUTF8.toList
-
-/-- ASCII text as bytes, in a form the kernel can evaluate (used by examples). -/
-def ascii (cs : List Char) : Bytes := cs.map (fun c => UInt8.ofNat c.toNat)
+def ascii (cs : List Char) : Bytes := Bytes.ascii cs
 
 structure DFile where
   name : Bytes
@@ -131,40 +131,7 @@ def splitLast (pat : Bytes) : Bytes → Option (Bytes × Bytes)
     | some (x, y) => some (b :: x, y)
     | none => if pat.isPrefixOf (b :: s) then some ([], (b :: s).drop pat.length) else none
 
-/-- length of the white-space rune (`unicode.IsSpace`) encoded at the head of `s`, 0 if none. -/
-def spaceHead : Bytes → Nat
-  | 0x09 :: _ | 0x0a :: _ | 0x0b :: _ | 0x0c :: _ | 0x0d :: _ | 0x20 :: _ => 1
-  | 0xc2 :: 0x85 :: _ | 0xc2 :: 0xa0 :: _ => 2
-  | 0xe1 :: 0x9a :: 0x80 :: _ => 3
-  | 0xe2 :: 0x80 :: b :: _ => if (0x80 ≤ b && b ≤ 0x8a) || b == 0xa8 || b == 0xa9 || b == 0xaf then 3 else 0
-  | 0xe2 :: 0x81 :: 0x9f :: _ => 3
-  | 0xe3 :: 0x80 :: 0x80 :: _ => 3
-  | _ => 0
-
-def trimLeft : Nat → Bytes → Bytes
-  | 0, s => s
-  | fuel + 1, s => match spaceHead s with
-    | 0 => s
-    | n => trimLeft fuel (s.drop n)
-
-/-- length of the white-space rune encoded at the END of `s` (as `utf8.DecodeLastRune` sees it). -/
-def spaceTail (s : Bytes) : Nat :=
-  match s.reverse with
-  | 0x09 :: _ | 0x0a :: _ | 0x0b :: _ | 0x0c :: _ | 0x0d :: _ | 0x20 :: _ => 1
-  | 0x85 :: 0xc2 :: _ | 0xa0 :: 0xc2 :: _ => 2
-  | 0x80 :: 0x9a :: 0xe1 :: _ => 3
-  | b :: 0x80 :: 0xe2 :: _ => if (0x80 ≤ b && b ≤ 0x8a) || b == 0xa8 || b == 0xa9 || b == 0xaf then 3 else 0
-  | 0x9f :: 0x81 :: 0xe2 :: _ => 3
-  | _ => 0
-
-def trimRight : Nat → Bytes → Bytes
-  | 0, s => s
-  | fuel + 1, s => match spaceTail s with
-    | 0 => s
-    | n => trimRight fuel (s.take (s.length - n))
-
-/-- `strings.TrimSpace`. -/
-def trimSpace (s : Bytes) : Bytes := trimRight s.length (trimLeft s.length s)
+open Atlas.Bytes (spaceHead trimLeft spaceTail trimRight trimSpace)
 
 inductive Err | format | mismatch | notFound
 deriving DecidableEq, Repr
